@@ -168,8 +168,13 @@ def run(chk: vlib.Check):
                        "observed": {"alive": last["alive"], "srcmap": last["srcmap"]}})
         if i in bads and bads[i]["at"] == len(ob["steps"]):
             # first rejected step is the last one: this history is a shortest witness
+            incr = ob["steps"][-1].get("incr") or {}
             if not rp["okA"] and rp["devs"]:
                 sig = "C20:" + "+".join(sorted(rp["devs"]))
+            elif incr.get("t") == "panic" and "Source node not found in database" in str(incr.get("msg")):
+                # root cause below layer B (pico re-executes a memoized function whose SourceId parameter names a removed
+                # source while it re-verifies a stale dependency list): one canonical signature, whatever the history
+                sig = "C20:panic:removed-source-read-during-reverification"
             else:
                 sig = "C20:unexplained:" + ",".join(
                     (o["op"] + "(" + str(o.get("p", o.get("c", ""))) + ")") if o["op"] != "batch"
